@@ -1,21 +1,19 @@
 (* C19 — Equality, ordering and hashing are structural and mutually consistent.
-   Statements only; every proof is `exact <lemma>` (Proofs/EqOrdProofs.v, Proofs/EqOrdCmpProofs.v).
+   Statements only; every proof is `exact <lemma>` (Proofs/EqOrdProofs.v, EqOrdCmpProofs.v, EqOrdDescProofs.v).
 
-   Model (Ms/EqOrdModel.v): `preorder` = what Terminal::pre_order_iter yields (discriminant, number
-   of children, payload), `eq_iter` = the truncating zip with the per-pair rules of
-   `impl PartialEq for Terminal`, `hash_iter` = the words fed to the Hasher, `cmp_iter` = the zip of
-   display nodes of `impl Ord for Terminal` with the `unreachable!` arm as `Panic`, `clone_rec`.
-   `eq_fixed` / `cmp_fixed` mirror the candidate repair notes/fixes/C19-*.diff.
-   Specification: Coq's `=` on the AST `ms`; `spec_cmp` (lexicographic order of display sequences).
+   Model (Ms/EqOrdModel.v; /repo as of 32d9f676): `preorder` = what Terminal::pre_order_iter yields
+   (discriminant, number of children, payload), `eq_iter` = the truncating zip with the per-pair rules of
+   `impl PartialEq for Terminal`, `hash_iter` = the words fed to the Hasher, `cmp_iter` = the zip of display
+   nodes of `impl Ord for Terminal` with the `unreachable!` arm as `Panic`, `clone_rec`;
+   `desc_eq` / `desc_cmp` (Ms/EqOrdDescModel.v) = the derived / hand-written impls of the descriptor types.
+   Specification: Coq's `=` on the AST `ms`; `spec_cmp` (lexicographic order of the display sequences).
 
-   FULL STATEMENTS (what the property demands of the code as it exists):
-     eq_structural    : forall a b, eq_iter a b = true <-> a = b
-     cmp_total_order  : forall kcmp total, cmp_iter never panics, is antisymmetric and transitive,
-                        and cmp_iter a b = Ok Eq <-> a = b
-     hash_eq_contract : forall a b, eq_iter a b = true -> hash_iter a = hash_iter b
-   The faithful model VIOLATES all three (`*_refuted` below, witnesses are findings about /repo).
-   Proved instead: the exact characterisation of eq_iter, its true half, the statements restricted to
-   thresh-free / n-ary-free terms, and the full statements for the repaired definitions. *)
+   All statements of the property hold for the model, at full strength:
+     eq_structural, hash_eq_contract, clone_eq, cmp_total_order (never panics; Equal <-> =; antisymmetric;
+     transitive), cmp Equal <-> ==.
+   History: until /repo 32d9f676 `==` ignored a thresh's k and arity and `cmp` ignored the arity of n-ary
+   fragments (and could reach unreachable!); the then-faithful model and its refutations are kept, clearly
+   labelled, in Proofs/EqOrdHistory.v and are not used here. *)
 From Verif Require Import EqOrdModel EqOrdProofs EqOrdCmpProofs.
 
 (* ---- key lemma: the pre-order of (tag, arity, payload) determines the tree; the iterator yields it *)
@@ -31,106 +29,51 @@ Theorem C19_preorder_iter_refines : forall m, preorder_stack (ms_size m) [m] = S
 Proof. exact preorder_iter_refines. Qed.
 Print Assumptions C19_preorder_iter_refines.
 
-(* ---- equality as coded *)
-Theorem C19_eq_structural_refuted_k : exists a b, eq_iter a b = true /\ a <> b.
-Proof. exact eq_structural_refuted_k. Qed.
-Print Assumptions C19_eq_structural_refuted_k.
+(* ---- equality is structural: equal exactly when structurally identical *)
+Theorem C19_eq_structural : forall a b, eq_iter a b = true <-> a = b.
+Proof. exact eq_structural. Qed.
+Print Assumptions C19_eq_structural.
 
-Theorem C19_eq_structural_refuted_arity : exists a b, eq_iter a b = true /\ a <> b.
-Proof. exact eq_structural_refuted_arity. Qed.
-Print Assumptions C19_eq_structural_refuted_arity.
+Local Open Scope N_scope.
+Example C19_eq_regression_witnesses :
+  eq_iter (MThresh 1 [w_pk 0; w_spk 1]) (MThresh 2 [w_pk 0; w_spk 1]) = false /\
+  eq_iter (MThresh 1 [w_pk 0; w_spk 1]) (MThresh 1 [w_pk 0; w_spk 1; w_spk 2]) = false /\
+  eq_iter (MThresh 2 [MThresh 1 [w_pk 0; w_spk 1]; w_spk 2; w_spk 3])
+          (MThresh 2 [MThresh 1 [w_pk 0; w_spk 1; w_spk 2]; w_spk 3]) = false.
+Proof. exact eq_regression_witnesses. Qed.
 
-Theorem C19_eq_structural_refuted_regroup :
-  exists a b, eq_iter a b = true /\ a <> b /\ length (preorder a) = length (preorder b).
-Proof. exact eq_structural_refuted_regroup. Qed.
-Print Assumptions C19_eq_structural_refuted_regroup.
-
-Theorem C19_eq_not_transitive_refuted :
-  exists a b c, eq_iter b a = true /\ eq_iter a c = true /\ eq_iter b c = false.
-Proof. exact eq_iter_not_transitive. Qed.
-Print Assumptions C19_eq_not_transitive_refuted.
-
-(* exact characterisation: `==` holds iff the pre-orders, with thresh k and n erased, are prefix-comparable *)
-Theorem C19_eq_iter_characterised : forall a b,
-  eq_iter a b = true <-> comparable (map erase (preorder a)) (map erase (preorder b)).
-Proof. exact eq_iter_char. Qed.
-Print Assumptions C19_eq_iter_characterised.
-
-(* eq_structural_partial: the "if" half holds for all terms ... *)
-Theorem C19_eq_structural_partial_complete : forall a b, a = b -> eq_iter a b = true.
-Proof. exact eq_iter_complete. Qed.
-Print Assumptions C19_eq_structural_partial_complete.
-
-(* ... and the full equivalence for thresh-free terms *)
-Theorem C19_eq_structural_partial_thresh_free : forall a b,
-  thresh_free a -> thresh_free b -> (eq_iter a b = true <-> a = b).
-Proof. exact eq_iter_structural_thresh_free. Qed.
-Print Assumptions C19_eq_structural_partial_thresh_free.
-
-Example C19_thresh_free_nonvacuous : thresh_free (MAndOr (MCheck (MPkK 0%N)) (MOlder 5%N) (MMulti 1%N [1; 2]%N)).
-Proof. exact thresh_free_example. Qed.
-
-Theorem C19_eq_sym : forall a b, eq_iter a b = eq_iter b a.
-Proof. exact eq_iter_sym. Qed.
-Print Assumptions C19_eq_sym.
-
-(* ---- equality repaired: structural for all terms *)
-Theorem C19_eq_fixed_structural : forall a b, eq_fixed a b = true <-> a = b.
-Proof. exact eq_fixed_structural. Qed.
-Print Assumptions C19_eq_fixed_structural.
-
-(* ---- hashing *)
+(* ---- equal values hash equally (plain determinism and the Hash/Eq contract) *)
 Theorem C19_hash_consistent : forall a b, a = b -> hash_iter a = hash_iter b.
 Proof. exact hash_consistent. Qed.
 Print Assumptions C19_hash_consistent.
 
-Theorem C19_hash_eq_contract_refuted : exists a b, eq_iter a b = true /\ hash_iter a <> hash_iter b.
-Proof. exact hash_eq_contract_refuted. Qed.
-Print Assumptions C19_hash_eq_contract_refuted.
+Theorem C19_hash_eq_contract : forall a b, eq_iter a b = true -> hash_iter a = hash_iter b.
+Proof. exact hash_eq_contract. Qed.
+Print Assumptions C19_hash_eq_contract.
 
-Theorem C19_hash_eq_contract_partial_thresh_free : forall a b,
-  thresh_free a -> thresh_free b -> eq_iter a b = true -> hash_iter a = hash_iter b.
-Proof. exact hash_eq_iter_thresh_free. Qed.
-Print Assumptions C19_hash_eq_contract_partial_thresh_free.
-
-Theorem C19_hash_eq_contract_fixed : forall a b, eq_fixed a b = true -> hash_iter a = hash_iter b.
-Proof. exact hash_eq_fixed_consistent. Qed.
-Print Assumptions C19_hash_eq_contract_fixed.
-
-(* ---- cloning *)
-Theorem C19_clone_eq : forall m, clone_rec m = m /\ eq_iter (clone_rec m) m = true /\ eq_fixed (clone_rec m) m = true.
+(* ---- cloning yields an equal value *)
+Theorem C19_clone_eq : forall m, clone_rec m = m /\ eq_iter (clone_rec m) m = true.
 Proof. exact (fun m => conj (clone_id m) (clone_eq m)). Qed.
 Print Assumptions C19_clone_eq.
 
-(* ---- ordering as coded *)
-Theorem C19_cmp_total_order_refuted_panic : exists a b, cmp_iter N.compare a b = Panic 356.
-Proof. exact cmp_total_refuted_panic. Qed.
-Print Assumptions C19_cmp_total_order_refuted_panic.
+(* ---- ordering: never panics, is the specification order, a total order whose Equal is equality *)
+Theorem C19_cmp_is_spec : forall kcmp, total_order kcmp -> forall a b, cmp_iter kcmp a b = Ok (spec_cmp kcmp a b).
+Proof. exact cmp_iter_spec. Qed.
+Print Assumptions C19_cmp_is_spec.
 
-Theorem C19_cmp_eq_refuted : exists a b, cmp_iter N.compare a b = Ok Eq /\ a <> b /\ eq_iter a b = false.
-Proof. exact cmp_eq_refuted. Qed.
-Print Assumptions C19_cmp_eq_refuted.
-
-Theorem C19_cmp_eq_disagree_refuted : exists a b, eq_iter a b = true /\ cmp_iter N.compare a b = Ok Lt.
-Proof. exact cmp_eq_disagree_refuted. Qed.
-Print Assumptions C19_cmp_eq_disagree_refuted.
-
-Theorem C19_cmp_transitive_refuted : exists a b c,
-  cmp_iter N.compare a b = Ok Eq /\ cmp_iter N.compare b c = Ok Lt /\ cmp_iter N.compare a c = Ok Eq.
-Proof. exact cmp_trans_refuted. Qed.
-Print Assumptions C19_cmp_transitive_refuted.
-
-(* cmp_total_order_partial: what holds of the code as it exists, for every key order that is total *)
-Theorem C19_cmp_total_order_partial : forall kcmp, total_order kcmp ->
-  (forall a, cmp_iter kcmp a a = Ok Eq) /\
+Theorem C19_cmp_total_order : forall kcmp, total_order kcmp ->
+  (forall a b, exists c, cmp_iter kcmp a b = Ok c) /\
+  (forall a b, cmp_iter kcmp a b = Ok Eq <-> a = b) /\
   (forall a b c, cmp_iter kcmp a b = Ok c -> cmp_iter kcmp b a = Ok (CompOpp c)) /\
-  (forall a b, nary_free a -> nary_free b -> cmp_iter kcmp a b = Ok (spec_cmp kcmp a b)).
-Proof.
-  exact (fun kcmp T => conj (cmp_iter_refl kcmp T) (conj (cmp_iter_antisym kcmp T) (cmp_iter_nary_free kcmp T))).
-Qed.
-Print Assumptions C19_cmp_total_order_partial.
+  (forall a b c, cmp_iter kcmp a b = Ok Lt -> cmp_iter kcmp b c = Ok Lt -> cmp_iter kcmp a c = Ok Lt).
+Proof. exact cmp_total_order. Qed.
+Print Assumptions C19_cmp_total_order.
 
-(* the specification order is a total order whose Equal is structural equality *)
+Theorem C19_cmp_eq_iff_eq : forall kcmp, total_order kcmp ->
+  forall a b, cmp_iter kcmp a b = Ok Eq <-> eq_iter a b = true.
+Proof. exact cmp_eq_iff_eq. Qed.
+Print Assumptions C19_cmp_eq_iff_eq.
+
 Theorem C19_spec_cmp_total_order : forall kcmp, total_order kcmp ->
   (forall a b, spec_cmp kcmp a b = Eq <-> a = b) /\
   (forall a b, spec_cmp kcmp b a = CompOpp (spec_cmp kcmp a b)) /\
@@ -140,50 +83,25 @@ Proof.
 Qed.
 Print Assumptions C19_spec_cmp_total_order.
 
-(* ---- ordering repaired: never panics, total order, Equal coincides with (repaired) equality *)
-Theorem C19_cmp_fixed_total_order : forall kcmp, total_order kcmp ->
-  (forall a b, exists c, cmp_fixed kcmp a b = Ok c) /\
-  (forall a b, cmp_fixed kcmp a b = Ok Eq <-> a = b) /\
-  (forall a b c, cmp_fixed kcmp a b = Ok c -> cmp_fixed kcmp b a = Ok (CompOpp c)) /\
-  (forall a b c, cmp_fixed kcmp a b = Ok Lt -> cmp_fixed kcmp b c = Ok Lt -> cmp_fixed kcmp a c = Ok Lt).
-Proof. exact cmp_fixed_total_order. Qed.
-Print Assumptions C19_cmp_fixed_total_order.
-
-Theorem C19_cmp_fixed_eq_fixed : forall kcmp, total_order kcmp ->
-  forall a b, cmp_fixed kcmp a b = Ok Eq <-> eq_fixed a b = true.
-Proof. exact cmp_fixed_eq_fixed. Qed.
-Print Assumptions C19_cmp_fixed_eq_fixed.
+Example C19_cmp_regression_witnesses :
+  cmp_iter N.compare (MOrB (MMulti 1 [0; 1]) (w_spk 2)) (MOrB (MMulti 1 [0; 1; 2]) (w_spk 0)) = Ok Lt /\
+  cmp_iter N.compare (MMulti 1 [0; 1]) (MMulti 1 [0; 1; 2]) = Ok Lt /\
+  cmp_iter N.compare (MThresh 1 [w_pk 0; w_spk 1]) (MThresh 2 [w_pk 0; w_spk 1]) = Ok Lt.
+Proof. exact cmp_regression_witnesses. Qed.
 
 Example C19_key_order_nonvacuous : total_order N.compare.
 Proof. exact key_order_example. Qed.
 
-(* ---- descriptors (derived Eq/Ord of Descriptor, Sh, Wsh, Bare, Pkh, Wpkh, TapTree; Tr by hand, cache skipped):
-        exactly as good as the miniscript-level impls they are built from *)
+(* ---- descriptors (derived Eq/Ord of Descriptor, Sh, Wsh, Bare, Pkh, Wpkh, TapTree; Tr by hand, cache skipped) *)
 From Verif Require Import EqOrdDescModel EqOrdDescProofs.
 
-Theorem C19_desc_eq_transfers : forall meq, (forall a b, meq a b = true <-> a = b) ->
-  forall a b, desc_eq meq a b = true <-> a = b.
-Proof. exact desc_eq_structural. Qed.
-Print Assumptions C19_desc_eq_transfers.
+Theorem C19_desc_eq_structural : forall a b, desc_eq eq_iter a b = true <-> a = b.
+Proof. exact desc_eq_iter_structural. Qed.
+Print Assumptions C19_desc_eq_structural.
 
-Theorem C19_desc_eq_fixed_structural : forall a b, desc_eq eq_fixed a b = true <-> a = b.
-Proof. exact desc_eq_fixed_structural. Qed.
-Print Assumptions C19_desc_eq_fixed_structural.
-
-Theorem C19_desc_eq_refuted :
-  exists a b a' b', desc_eq eq_iter a b = true /\ a <> b /\ desc_eq eq_iter a' b' = true /\ a' <> b'.
-Proof. exact desc_eq_refuted. Qed.
-Print Assumptions C19_desc_eq_refuted.
-
-Theorem C19_desc_cmp_refuted : exists a b c d,
-  desc_cmp cmp_iter N.compare N.compare a b = EqOrdModel.Panic 356 /\
-  desc_cmp cmp_iter N.compare N.compare c d = EqOrdModel.Ok Eq /\ c <> d.
-Proof. exact desc_cmp_refuted. Qed.
-Print Assumptions C19_desc_cmp_refuted.
-
-(* desc_cmp_total_order_partial: proved here: no panic and Equal <-> structural equality (antisymmetry and
-   transitivity of the descriptor order are not stated; they are checked per run by the oracle) *)
-Theorem C19_desc_cmp_fixed_partial : forall kf kx, total_order kf -> total_order kx ->
-  forall a b, exists c, desc_cmp cmp_fixed kf kx a b = EqOrdModel.Ok c /\ (c = Eq <-> a = b).
-Proof. exact desc_cmp_fixed. Qed.
-Print Assumptions C19_desc_cmp_fixed_partial.
+(* desc_cmp_total_order_partial: proved: no panic and Equal <-> structural equality; antisymmetry and
+   transitivity of the descriptor order are not stated here (checked per run by the oracle) *)
+Theorem C19_desc_cmp_total_order_partial : forall kf kx, total_order kf -> total_order kx ->
+  forall a b, exists c, desc_cmp cmp_iter kf kx a b = EqOrdModel.Ok c /\ (c = Eq <-> a = b).
+Proof. exact desc_cmp_spec. Qed.
+Print Assumptions C19_desc_cmp_total_order_partial.
